@@ -6,3 +6,5 @@ def run(ctx, rep):
     args.rule_prologues(ctx.mod, rep)
     from ..rules import more
     more.rule_arg_exclusive(ctx.mod, rep)
+    from ..rules import more4
+    more4.rule_xerbla_readonly(ctx.mod, rep)
